@@ -723,7 +723,7 @@ package listz
 //@     decreases l.len - index
 
 // list copies: the values of other's nodes (as they were at the call) are appended / prepended in order; other may be l
-//@ spec dval(p int) T = cast(DNode, p).Value
+//@ spec dnval(p int) T = cast(DNode, p).Value
 //@ func DList.PushBackDList
 //@   noterm
 //@   ghost[seq] n = other.len
@@ -735,16 +735,16 @@ package listz
 //@   ensures wf(l)
 //@   ensures[seq] dSeq(l) && l.len == L0 + n
 //@   ensures[seq] forall k in 1..L0+1: l.seq[k] == old(l.seq[k])
-//@   ensures[seq] forall k in 1..n+1: dval(l.seq[L0+k]) == old(dval(other.seq[k]))
+//@   ensures[seq] forall k in 1..n+1: dnval(l.seq[L0+k]) == old(dnval(other.seq[k]))
 //@   loop 1:
 //@     invariant wf(l) && l.root.next != nil && l.len < 9223372036854775807
 //@     invariant other != l ==> wf(other)
 //@     invariant[seq] 0 <= i && i <= n && dSeq(l) && l.len == L0 + (n - i)
 //@     invariant[seq] other != l ==> (dInv(other) && other.len == n)
 //@     invariant[seq] forall k in 1..L0+1: l.seq[k] == old(l.seq[k])
-//@     invariant[seq] forall k in 1..n+1: other.seq[k] == old(other.seq[k]) && dval(other.seq[k]) == old(dval(other.seq[k]))
+//@     invariant[seq] forall k in 1..n+1: other.seq[k] == old(other.seq[k]) && dnval(other.seq[k]) == old(dnval(other.seq[k]))
 //@     invariant[seq] i > 0 ==> e == other.seq[n - i + 1]
-//@     invariant[seq] forall k in 1..(n-i)+1: dval(l.seq[L0+k]) == old(dval(other.seq[k]))
+//@     invariant[seq] forall k in 1..(n-i)+1: dnval(l.seq[L0+k]) == old(dnval(other.seq[k]))
 
 //@ func DList.PushFrontDList
 //@   noterm
@@ -757,14 +757,14 @@ package listz
 //@   ensures wf(l)
 //@   ensures[seq] dSeq(l) && l.len == L0 + n
 //@   ensures[seq] forall k in 1..L0+1: l.seq[n+k] == old(l.seq[k])
-//@   ensures[seq] forall k in 1..n+1: dval(l.seq[k]) == old(dval(other.seq[k]))
+//@   ensures[seq] forall k in 1..n+1: dnval(l.seq[k]) == old(dnval(other.seq[k]))
 //@   loop 1:
 //@     invariant wf(l) && l.root.next != nil && l.len < 9223372036854775807
 //@     invariant other != l ==> wf(other)
 //@     invariant[seq] 0 <= i && i <= n && dSeq(l) && l.len == L0 + (n - i)
 //@     invariant[seq] other != l ==> (dInv(other) && other.len == n)
 //@     invariant[seq] forall k in 1..L0+1: l.seq[(n-i)+k] == old(l.seq[k])
-//@     invariant[seq] forall k in 1..n+1: dval(old(other.seq[k])) == old(dval(other.seq[k]))
+//@     invariant[seq] forall k in 1..n+1: dnval(old(other.seq[k])) == old(dnval(other.seq[k]))
 //@     invariant[seq] other != l ==> forall k in 1..n+1: other.seq[k] == old(other.seq[k])
 //@     invariant[seq] i > 0 ==> e == ite(other == l, l.seq[n], other.seq[i])
-//@     invariant[seq] forall k in i+1..n+1: dval(l.seq[k-i]) == old(dval(other.seq[k]))
+//@     invariant[seq] forall k in i+1..n+1: dnval(l.seq[k-i]) == old(dnval(other.seq[k]))
